@@ -1227,6 +1227,12 @@ class CacheConfiguration(ConfigurationBase):
     def _mbtiles_cache(self, grid_conf, image_opts):
         from mapproxy.cache.mbtiles import MBTilesCache
 
+        if self.has_multiple_grids():
+            raise ConfigurationError(
+                "using single mbtiles file for cache with multiple grids in %s" %
+                (self.conf['name']),
+            )
+
         filename = self.conf['cache'].get('filename')
         if not filename:
             filename = self.conf['name'] + '.mbtiles'
